@@ -352,6 +352,13 @@ def run(ctx):
     for k, v in want.items():
         ctx.check(len(outs) == 1 and same(outs[0].args.get(k, NONE), C.expr(v)), 'R6', 'kernel %s (outbound SA) is %s' % (k, v),
                   key=('R6', k), site=ctx.site(cc, cc.node))
+    # the inbound SA selects the same traffic seen from the other end: selectors and ports exchanged
+    ins = [c for c in C.calls_to(qual='xfrm.Xfrm.create_sa') if c.args.get('spi') == attr(('param', 'child_sa'), 'inbound_spi')]
+    want_in = {'src_selector': 'child_sa.tsr.get_network()', 'dst_selector': 'child_sa.tsi.get_network()',
+               'src_port': 'child_sa.tsr.get_port()', 'dst_port': 'child_sa.tsi.get_port()'}
+    for k, v in want_in.items():
+        ctx.check(len(ins) == 1 and same(ins[0].args.get(k, NONE), C.expr(v)), 'R6', 'kernel %s (inbound SA) is %s' % (k, v),
+                  key=('R6', 'inbound', k), site=ctx.site(cc, cc.node))
 
 
 MANIFEST = {
